@@ -27,6 +27,21 @@ pub fn rich_doc(kind: &str, s: &str, km: &KeyMap) -> MetadataWrapper {
         mats.insert(VirtualTargetPath::new(format!("m{s}")).unwrap(), target("h3"));
         let mut prods = artifacts(&json!([{"p": "a.out", "d": "h2"}, {"p": "b.out", "d": "h1"}]));
         prods.insert(VirtualTargetPath::new(format!("p{s}")).unwrap(), target("h1"));
+        // artifacts recorded with two hash algorithms (zz.* sorts last, so "the first entry" stays single-digest)
+        let two = |sym: &str| {
+            let mut t = target(sym);
+            t.insert(in_toto::crypto::HashAlgorithm::Sha512, in_toto::crypto::HashValue::new(ring::digest::digest(&ring::digest::SHA512, sym.as_bytes()).as_ref().to_vec()));
+            t
+        };
+        mats.insert(VirtualTargetPath::new("zz.two.c".to_string()).unwrap(), two("h4"));
+        prods.insert(VirtualTargetPath::new("zz.two.out".to_string()).unwrap(), two("h5"));
+        // the return value: zero, negative, extreme - by the length of the content string
+        let retval = match s.chars().count() % 4 {
+            0 => 0,
+            1 => -1,
+            2 => i32::MIN,
+            _ => i32::MAX,
+        };
         MetadataWrapper::Link(
             LinkMetadataBuilder::new()
                 .name(format!("step{s}"))
@@ -35,7 +50,7 @@ pub fn rich_doc(kind: &str, s: &str, km: &KeyMap) -> MetadataWrapper {
                 .command(Command::from(vec!["cc".to_string(), format!("-D{s}"), "a.c".to_string()]))
                 .byproducts(
                     ByProducts::new()
-                        .set_return_value(0)
+                        .set_return_value(retval)
                         .set_stdout(format!("out{s}\n"))
                         .set_stderr(s.to_string())
                         .set_other_field("extra".to_string(), format!("x{s}")),
@@ -160,6 +175,25 @@ pub fn edit_signed(signed: &mut Value, field: &str, scn: &Value, rng: &mut impl 
             let o = signed[side].as_object_mut().unwrap();
             let k = o.keys().next().cloned().unwrap();
             obj_rename(o.get_mut(&k).unwrap(), 0, &|_| "sha512".to_string())
+        }
+        // one digest of an artifact recorded with two algorithms changes / disappears
+        "two_alg_sha256" | "two_alg_sha512" | "two_alg_drop256" | "two_alg_drop512" if is_link => {
+            let side = if field.ends_with("256") { "products" } else { "materials" };
+            let key = if side == "products" { "zz.two.out" } else { "zz.two.c" };
+            let alg = if field.ends_with("256") { "sha256" } else { "sha512" };
+            let e = &mut signed[side][key];
+            if !e.is_object() || e[alg].is_null() {
+                return false;
+            }
+            if field.contains("drop") {
+                e.as_object_mut().unwrap().remove(alg);
+            } else {
+                let h = e[alg].as_str().unwrap().to_string();
+                let n = h.len();
+                let last = if h.ends_with('0') { "1" } else { "0" };
+                e[alg] = json!(format!("{}{}", &h[..n - 1], last));
+            }
+            true
         }
         "mat_add" if is_link => {
             signed["materials"]["zz.new"] = json!({"sha256": "00".repeat(32)});
